@@ -559,78 +559,21 @@ func (m *Model) RunDirMode(s *Sink, rule string) {
 		s.Undecided(rule, "lexer.Lexer fields", "-", "char / isHTML / isDirective not found")
 		return
 	}
-	// parser side
-	var parFns []*ssa.Function
-	for _, fn := range m.ModFns {
-		if fn.Blocks != nil && shortPkg(fnPkgPath(fn)) == "parser" {
-			parFns = append(parFns, fn)
-		}
-	}
-	isExpectLP := func(c *ssa.Call) bool {
-		sc := c.Call.StaticCallee()
-		if sc == nil || m.findExpectLikes(parFns)[sc] == nil || len(c.Call.Args) < 2 {
-			return false
-		}
-		k, ok := c.Call.Args[1].(*ssa.Const)
-		return ok && k.Value != nil && k.Int64() == lparen
-	}
-	ci := m.newPassInfo(func(ssa.CallInstruction) bool { return false }, isExpectLP, parFns, nil)
-	pexpr := m.Method("parser", "Parser", "parseExpression")
-	ciExpr := m.newPassInfo(func(c ssa.CallInstruction) bool { return pexpr != nil && c.Common().StaticCallee() == pexpr }, func(*ssa.Call) bool { return false }, parFns, nil)
-	takes := func(tok int64) string {
-		fn := m.firstParserCall(ps, tok, pm)
-		if fn == nil {
-			// not a statement of its own (@elseif, @else, @end): look at where the parser steps onto it with an expect
-			// function — what must follow on every successful path from there?
-			res := "never"
-			for _, pf := range parFns {
-				for _, b := range pf.Blocks {
-					for _, in := range b.Instrs {
-						c, ok := in.(*ssa.Call)
-						if !ok || c.Call.StaticCallee() == nil || m.findExpectLikes(parFns)[c.Call.StaticCallee()] == nil || len(c.Call.Args) < 2 {
-							continue
-						}
-						k, isK := c.Call.Args[1].(*ssa.Const)
-						if !isK || k.Value == nil || k.Int64() != tok {
-							continue
-						}
-						for _, t := range successTargets(c) {
-							if !ci.pathAvoiding(pf, t, 0, ci.successReturn, nil) || !ciExpr.pathAvoiding(pf, t, 0, ciExpr.successReturn, nil) {
-								res = "always" // "(" is required, or an argument expression is parsed right after the keyword
-							}
-						}
-					}
-				}
-			}
-			return res
-		}
-		if ci.onOK[fn] || ci.always[fn] {
-			return "always"
-		}
-		for _, b := range fn.Blocks {
-			for _, in := range b.Instrs {
-				c, ok := in.(*ssa.Call)
-				if !ok || c.Call.StaticCallee() == nil {
-					continue
-				}
-				ip := m.parserInterp(-1, lparen, pm.precLit, nil)
-				if res, known := ip.EvalValue(c, 0); known && isBoolT(c.Type()) {
-					if rc, isC := res.(constant.Value); isC && constant.BoolVal(rc) {
-						ip2 := m.parserInterp(-1, pm.tokVal["EOF"], pm.precLit, nil)
-						if res2, known2 := ip2.EvalValue(c, 0); known2 {
-							if rc2, isC2 := res2.(constant.Value); isC2 && !constant.BoolVal(rc2) && !isExpectLP(c) {
-								return "optional" // a test that is true for "(" and false otherwise
-							}
-						}
-					}
-				}
-			}
-		}
-		if ci.may[fn] {
+	// which directives are written with parentheses is part of the language (lsp/metadata/en/*.md: @break, @continue, @end
+	// and @else are bare; @slot has an optional name; every other directive takes arguments)
+	specBare := map[string]bool{"@else": true, "@end": true, "@break": true, "@continue": true}
+	specOptional := map[string]bool{"@slot": true}
+	takes := func(kw string) string {
+		switch {
+		case specBare[kw]:
+			return "never"
+		case specOptional[kw]:
 			return "optional"
 		}
-		return "never"
+		return "always"
 	}
+	_ = ps
+	_ = lparen
 	var names []string
 	for k := range dirs {
 		names = append(names, k)
@@ -639,7 +582,7 @@ func (m *Model) RunDirMode(s *Sink, rule string) {
 	n := 0
 	for _, kw := range names {
 		tok := dirs[kw]
-		want := takes(tok)
+		want := takes(kw)
 		for _, next := range []byte{'(', 'x'} {
 			lx := &iStruct{typ: lexT, fields: map[int]any{fChar: constant.MakeInt64('@'), fHTML: constant.MakeBool(true), fDir: constant.MakeBool(false)}}
 			ip := &Interp{m: m, useGlobals: true}
@@ -661,11 +604,11 @@ func (m *Model) RunDirMode(s *Sink, rule string) {
 			code := !constant.BoolVal(hv)
 			wantCode := want == "always" || (want == "optional" && next == '(')
 			if code == wantCode {
-				s.OK(rule, key, m.Pos(dt.Pos()), "parser takes parentheses: %s; lexer enters code mode: %v", want, code)
+				s.OK(rule, key, m.Pos(dt.Pos()), "the directive takes parentheses: %s; lexer enters code mode: %v", want, code)
 			} else if code {
-				s.Violation(rule, key, m.Pos(dt.Pos()), "after the bare directive %s the lexer enters code mode when %q follows, but the parser reads no parentheses there: the following text is tokenised and disappears from the output", kw, string(next))
+				s.Violation(rule, key, m.Pos(dt.Pos()), "after the bare directive %s the lexer enters code mode when %q follows, but the directive takes no arguments: the following text is tokenised and disappears from the output", kw, string(next))
 			} else {
-				s.Violation(rule, key, m.Pos(dt.Pos()), "after %s followed by %q the lexer stays in text mode, but the parser expects parentheses (%s): the arguments are emitted as text", kw, string(next), want)
+				s.Violation(rule, key, m.Pos(dt.Pos()), "after %s followed by %q the lexer stays in text mode, but the directive takes arguments (%s): they are emitted as text", kw, string(next), want)
 			}
 		}
 	}
